@@ -186,7 +186,7 @@ class Site:
     """key  = function key : kind # hash of the *canonical* (name-independent) operand expressions — what reviewed
               rows and known findings are matched by (renaming a local does not change it);
        text = function key : kind(readable operand expressions) — for humans and for the table generator."""
-    __slots__ = ("b", "bb", "kind", "desc", "ops", "span", "key", "exp", "term", "opty", "text", "canon", "guards")
+    __slots__ = ("b", "bb", "kind", "desc", "ops", "span", "key", "exp", "term", "opty", "text", "canon", "guards", "key_nog")
 
     def __init__(self, b, bb, kind, desc, ops, span, exp, term, opty="", raw_ops=()):
         self.b, self.bb, self.kind, self.desc, self.ops, self.span, self.exp, self.term = b, bb, kind, desc, ops, span, exp, term
@@ -207,6 +207,9 @@ class Site:
         # changed guard makes the site a new, unreviewed one
         self.guards = guard_fingerprint(b, bb)
         self.key = "%s:%s#%s" % (fn_key(b), kind, h8(self.canon + "||" + self.guards))
+        # for rows whose argument is about the operands' values alone (marked [any-guard] where the reasons are
+        # written): the same site identified without its guards
+        self.key_nog = "%s:%s#%s~" % (fn_key(b), kind, h8(self.canon))
 
 
 def inventory(F, reach):
